@@ -50,7 +50,8 @@ var (
 	engines   = []string{"sherpa", "olla"}
 	profiles  = []string{"auto", "streaming", "standard"}
 	balancers = []string{"priority", "round-robin", "least-connections"}
-	ctypes    = []string{"application/json", "text/event-stream", "application/x-ndjson", "text/plain", "application/octet-stream"}
+	// "" = the backend sends no Content-Type header at all
+	ctypes = []string{"application/json", "text/event-stream", "application/x-ndjson", "text/plain", "application/octet-stream", ""}
 	statuses  = []int{200, 200, 200, 201, 400, 404, 429, 500, 503}
 )
 
@@ -137,7 +138,10 @@ func genCase(t *rapid.T) Case {
 }
 
 func (p Plan) script(id string) backend.Script {
-	hs := append([][2]string{{"Content-Type", p.CT}}, p.Extra...)
+	hs := append([][2]string{}, p.Extra...)
+	if p.CT != "" {
+		hs = append([][2]string{{"Content-Type", p.CT}}, p.Extra...)
+	}
 	switch p.Kind {
 	case "close0":
 		return backend.Script{Steps: []backend.Step{{Op: "close"}}}
@@ -423,7 +427,13 @@ func runCase(c Case) []ev.Violation {
 		bad("status-altered/"+c.Engine, "client status %d, backend %d wrote %d: %s", resp.Status, src, st, describe())
 	}
 	want := headerMultiset(ths, ollaOwn)
-	got := headerMultiset(resp.Headers, ollaOwn)
+	skip := ollaOwn
+	if c.Plans[src].CT == "" {
+		// a backend response without Content-Type gets one from Olla's HTTP server (net/http
+		// sniffs the first bytes): a header Olla adds, not part of any backend attempt
+		skip = func(n string) bool { return ollaOwn(n) || strings.EqualFold(n, "Content-Type") }
+	}
+	got := headerMultiset(resp.Headers, skip)
 	if strings.Join(want, "\n") != strings.Join(got, "\n") {
 		bad("headers-altered/"+c.Engine, "end-to-end headers differ: backend wrote %q, client got %q: %s", want, got, describe())
 	}
@@ -467,6 +477,11 @@ func enumerate(t *testing.T) {
 	shapes = append(shapes, Plan{Kind: "shortcl", Status: 200, CT: "application/json", Total: 512, Framing: "cl", K: 100})
 	shapes = append(shapes, Plan{Kind: "rst0"}, Plan{Kind: "close0"}, Plan{Kind: "garbage"}, Plan{Kind: "refuse"})
 	shapes = append(shapes, Plan{Kind: "cut", Status: 500, CT: "text/plain", Total: 300, Framing: "cl", K: 10, Fault: "rst"})
+	for _, f := range []string{"close", "rst"} {
+		for _, k := range []int{0, 100} {
+			shapes = append(shapes, Plan{Kind: "cut", Status: 200, CT: "", Total: 4096, Framing: "chunked", K: k, Fault: f})
+		}
+	}
 	okPlan := Plan{Kind: "complete", Status: 200, CT: "application/json", Total: 200, Framing: "cl", Pieces: 1}
 	bals := balancers
 	if !rec.Thorough() {
